@@ -47,7 +47,11 @@ class ProbeManager:
     async def distribute_power(self, request: Any) -> None:
         sim, st = self.sim, self.st
         g = st.group_of[frozenset(request.component_ids)]
-        idx = int(request.power.as_watts())
+        idx = st.idx_of.get(id(request))
+        if idx is None:
+            sim.violation("subsequence", {"what": "processed a request object that was never sent"},
+                          f"group {g}: {request}")
+        assert idx is not None
         st.on_enter(g, idx)
         mode = sim.ch.weighted("dist_mode", [3, 2, 6, 1, 2])
         delay = 0
@@ -80,6 +84,9 @@ class State:
         self.sent_at_idle: list[int] = [0] * ngroups    # latest idx sent before last idle point
         self.floor_next: list[int] = [0] * ngroups      # lower bound for the next started idx
         self.overlapped = False
+        self.idx_of: dict[int, int] = {}                # id(Request object) -> send index (objects are kept alive)
+        self.keep: list[Any] = []
+        self.power_of: dict[int, float] = {}
 
     def on_send(self, g: int, idx: int) -> None:
         self.sent[g].append(idx)
@@ -180,9 +187,19 @@ def scenario(sim: Sim) -> None:
             t = target
             if target > sim.now_us:
                 await _until(sim, target)
-            req = Request(power=Power.from_watts(float(k)), component_ids=st.groups[g], adjust_power=True)
+            # powers are usually unique, but sometimes a request repeats the value of an earlier one of the same
+            # group (equal by value, e.g. a keep-alive re-send): it is still a new request and must win
+            power = float(k)
+            if st.sent[g] and ch.chance("same_value_as_earlier", 0.15):
+                back = st.sent[g][-1 - ch.draw("which_earlier", min(3, len(st.sent[g])))]
+                power = st.power_of[back]
+                sim.probe("equal_valued_request")
+            req = Request(power=Power.from_watts(power), component_ids=st.groups[g], adjust_power=True)
+            st.idx_of[id(req)] = k
+            st.keep.append(req)
+            st.power_of[k] = power
             st.on_send(g, k)
-            sim.note(f"send request #{k} group {g}")
+            sim.note(f"send request #{k} group {g} power {power}")
             sim.spawn(tx.send(req))
             if ch.chance("stall", 0.03):
                 sim.stall(ch.choice("stall_us", [100, 10_000, 500_000, 2_000_000]))
